@@ -28,11 +28,18 @@ def gen_user_section(rng, u, creator, ext=False, flavor=None, fixtures=True, plu
         flavor = "noparser"
     ext_creator = None
     expect = []
+    clobbered = []
     mode = "dump"
     if flavor == "bmc_json":
         eff, comp, sub = "O", 0x2000, 1
         doc = pm.json_payload(rng, u) if rng.random() < 0.85 else rng.choice(
             [[1, "two", {"3": 4}], "just a string", 17, ["x\": y"], True])
+        clobbered = []
+        if isinstance(doc, dict) and rng.random() < 0.06:
+            # a member named like one of the section's own header fields: the stored JSON value is what must appear
+            k = rng.choice(["Section Version", "Sub-section type", "Created by"])
+            doc[k] = rng.choice(["2.7-rc1", 99, "phosphor-fan-monitor", ["x"]])
+            clobbered.append(k)
         txt = json.dumps(doc, ensure_ascii=rng.random() < 0.5, indent=rng.choice([None, None, 2]))
         payload = nul_pad(txt.encode("utf-8"), 4, rng.choice([0, 0, 4]))
         mode = "json"
@@ -95,6 +102,8 @@ def gen_user_section(rng, u, creator, ext=False, flavor=None, fixtures=True, plu
         mode = "dump"
     s = pm.sec_ud(rng, u, creator, comp, sub, ver, payload, ext_creator=ext_creator,
                   expect_mode="dump" if mode == "dump" else mode)
+    if flavor == "bmc_json" and clobbered:
+        s.expect = [e for e in s.expect if e[0] not in clobbered]
     s.expect += expect
     s.m["flavor"] = flavor
     s.note = flavor
